@@ -43,8 +43,64 @@ CORPUS = [
 ]
 
 
+def forwarding_run(rng, n, drv, only=None):
+    """nested dispatch: receivers that post the same event type through another manager from inside their handler. Not in the Events
+    model: judged against a direct reading of the property (every receiver of the manager posted through, once, in subscription
+    order; a forwarded post delivers to the other manager's receivers at that point)"""
+    scripts = only or []
+    for i in range(0 if only else n):
+        r = rng.fork('fw%d' % i)
+        nm = r.range(2, 4)
+        lines = ['mgr'] * nm
+        for _ in range(r.range(4, 14)):
+            m = r.below(nm); t = r.below(3)
+            if m + 1 < nm and r.chance(1, 3):
+                lines.append('subfwd %d %d %d' % (m, t, r.range(m + 1, nm - 1)))      # forward to a LATER manager only: no cycles
+            else:
+                lines.append('sub %d %d' % (m, t))
+        for m in range(nm):
+            for t in range(3):
+                lines.append('post %d %d' % (m, t))
+        scripts.append(('fw%d' % i, lines))
+    io, _ = emcmp.run_driver(drv, emcmp.scripts_text(scripts), os.path.join(vlib.BUILD, 'work', PROP + '-fw'))
+    for name, blocks in emcmp.parse(io):
+        subs = {}; rid = 0
+        for i, b in enumerate(blocks):
+            t = b['op'].split()
+            if b['crash']:
+                return (name, i, b['op'], 'crashed: ' + b['crash'], dict(scripts)[name]), scripts
+            if t[0] == 'sub':
+                subs.setdefault((int(t[1]), int(t[2])), []).append((rid, None)); rid += 1
+            elif t[0] == 'subfwd':
+                subs.setdefault((int(t[1]), int(t[2])), []).append((rid, int(t[3]))); rid += 1
+            elif t[0] == 'post':
+                def deliver(m, ty):
+                    out = []
+                    for r_, fwd in subs.get((m, ty), []):
+                        out.append('r%d' % r_)
+                        if fwd is not None:
+                            out += deliver(fwd, ty)
+                    return out
+                exp = deliver(int(t[1]), int(t[2]))
+                got = (b['tags'].get('R') or ['R'])[0].split()[1:]
+                if got != exp:
+                    return (name, i, b['op'], 'delivered [%s], the subscriptions (with forwarding handlers) imply [%s]' % (' '.join(got), ' '.join(exp)), dict(scripts)[name]), scripts
+    return None, scripts
+
+
 def run(tier, seed, replay=None):
     rng = vlib.Rng(seed)
+    rl = [l.rstrip('\n') for l in open(replay) if l.strip() and not l.startswith('#')] if replay else []
+    if not replay or any(l.startswith('subfwd') for l in rl):
+        drv_, err_ = vlib.build_driver('evt_driver')
+        if not err_:
+            bad, fs = forwarding_run(rng, 80 if tier == 'quick' else 1500, drv_, [('replay', rl)] if replay else None)
+            if bad or replay:
+                cov = {'rule': 'forwarding handlers (nested dispatch), implementation only', 'evaluations': len(fs), 'distinct_nontrivial': len(fs)}
+                if not bad:
+                    return {'violations': [], 'coverage': cov, 'level': 'proof'}
+                p = vlib.write_replay(PROP, 'failing_script.txt', '# op %d (%s): %s\n%s\n' % (bad[1], bad[2], bad[3], '\n'.join(bad[4])))
+                return {'violations': [(p, '')], 'coverage': cov, 'level': 'proof'}
     pr = proofcheck.prove(PROP)
     n, nops = (300, 40) if tier == 'quick' else (5000, 120)
     if replay:
@@ -97,4 +153,4 @@ def run(tier, seed, replay=None):
         p = vlib.write_replay(PROP, 'broken_obligation.txt', '\n'.join(what) + '\n')
         violations.append((p, 'no-failing-input-found'))
     return {'violations': violations, 'known': [], 'coverage': cov, 'level': 'proof',
-            'assumptions': ['handlers do not subscribe or unsubscribe re-entrantly during delivery', 'posting through a destroyed manager is outside the contract']}
+            'assumptions': ['handlers do not subscribe or unsubscribe re-entrantly during delivery (handlers that post through another manager are judged on the implementation output only)', 'posting through a destroyed manager is outside the contract']}
